@@ -36,6 +36,7 @@ type gateReq struct {
 type Gate struct {
 	Journal string // path prefix of the journal, e.g. "pools" or "<poolid>/branches"
 	Commits string // path prefix of commit objects, e.g. "<poolid>/commits" ("" = none)
+	Data    string // path prefix of data objects, e.g. "<poolid>/data" ("" = none)
 
 	mu      sync.Mutex
 	cond    *sync.Cond
@@ -44,8 +45,9 @@ type Gate struct {
 	lastC   int
 	lastLbl string
 	crashed map[int]bool
-	Trace   []GateStep // steps actually granted (with coalesced reads as one step)
-	free    bool       // when true every request is granted immediately (drain mode)
+	wantUp  map[int]bool // client is in a load operation whose upload has not started yet
+	Trace   []GateStep   // steps actually granted (with coalesced reads as one step)
+	free    bool         // when true every request is granted immediately (drain mode)
 	store   *MemStore
 }
 
@@ -53,12 +55,14 @@ var reEntry = regexp.MustCompile(`^(\d+)\.zng$`)
 
 // NewGate creates a gate for the given journal / commits prefixes.
 func NewGate(store *MemStore, journal, commits string) *Gate {
-	g := &Gate{Journal: journal, Commits: commits, state: map[int]string{}, pending: map[int]*gateReq{}, crashed: map[int]bool{}, store: store}
+	g := &Gate{Journal: journal, Commits: commits, state: map[int]string{}, pending: map[int]*gateReq{}, crashed: map[int]bool{}, wantUp: map[int]bool{}, store: store}
 	g.cond = sync.NewCond(&g.mu)
 	return g
 }
 
 // classify maps a storage op to a Journal.tla step label ("" = ungated).
+// (The "up" label -- first data-object Put of a load -- is decided in Hook
+// because it depends on the client's current operation.)
 func (g *Gate) classify(o Op) (string, int) {
 	if strings.HasPrefix(o.Path, g.Journal+"/") {
 		rest := o.Path[len(g.Journal)+1:]
@@ -94,6 +98,10 @@ func (g *Gate) Hook(c int) Interposer {
 		if g.crashed[c] {
 			g.mu.Unlock()
 			return ErrCrashed
+		}
+		if lbl == "" && g.wantUp[c] && g.Data != "" && o.Kind == "Put" && strings.HasPrefix(o.Path, g.Data+"/") {
+			lbl = "up"
+			g.wantUp[c] = false
 		}
 		if lbl == "" || g.free || g.state[c] != "running" {
 			g.mu.Unlock()
@@ -148,6 +156,15 @@ func (g *Gate) OpBoundary(c int) {
 	if g.lastC == c {
 		g.lastLbl = ""
 	}
+	g.wantUp[c] = false
+	g.mu.Unlock()
+}
+
+// ExpectUpload tells the gate that client c starts a load: its first data-object
+// Put is the scheduling point "up" (other clients may commit during the upload).
+func (g *Gate) ExpectUpload(c int) {
+	g.mu.Lock()
+	g.wantUp[c] = true
 	g.mu.Unlock()
 }
 
